@@ -194,6 +194,12 @@ def run_replay_check(pid: str, tier: str, seed: int) -> int:
                 or (plan.get("claims_actions") and v["a"] in plan["actions"])]
         if not mine:
             other_prop += 1
+            if other_prop <= 3:
+                v0 = r["viol"][0]
+                np_ = write_replay("NOTE" + v0["props"][0], beh, v0)
+                print(f"NOTE: replay={np_}")
+                print(f"NOTE: a behaviour stopped at a divergence owned by {v0['props']} (not judged here): "
+                      f"{v0['kind']} {v0['a']}/{v0['en']} g={v0['g']} cell={v0['cell']}: {v0['detail'][:160]}")
             continue
         for v in mine:
             f = findings.classify(pid, v, kf)
@@ -481,6 +487,10 @@ def main() -> int:
     seed = int(os.environ.get("VERIF_SEED", "1") or 1) % 100000
     os.makedirs(OUT, exist_ok=True)
     try:
+        if a.pid == "SELFTEST":
+            from harness import selftest
+
+            return selftest.main()
         if a.replay:
             return run_replay_file(a.replay)
         if a.pid in REPLAY_PLANS:
